@@ -27,10 +27,19 @@
       or a Cancel) was issued no earlier than the completion time, i.e. the
       action had not been superseded before it was due; and the assignment
       k |-> j is injective: every action fires at most once.
-    The "fires when due" direction is [C17_not_past] with [C17_slot]. *)
+    - [C17_fires_when_due]: the converse at the level of whole runs, with the
+      same history and cause assignment: an action (SendPadding or
+      BlockOutgoing for machine m, returned in record j) whose due time
+      (issue time + timeout) simulated time has moved past either FIRED --
+      its completion is reported between, on that side, exactly at the due
+      time, and is the one the cause assignment maps to j -- or was
+      SUPERSEDED: a newer action-timer action for m (a SendPadding, a
+      BlockOutgoing, a Cancel of the action timer or of all timers) was
+      returned on that side no later than the due time. No due action is
+      dropped silently. (Step level: [C17_not_past] with [C17_slot].) *)
 From MB Require Import Model.Framework Model.Sim.
 From MB Require Import Proofs.SimReach.
-From MB Require Proofs.SimBlocking Proofs.SimTimers Proofs.SimTrace Proofs.SimHistory Proofs.SimActionTrace.
+From MB Require Proofs.SimBlocking Proofs.SimTimers Proofs.SimTrace Proofs.SimHistory Proofs.SimActionTrace Proofs.SimActionLive.
 Import ListNotations SimTimers.
 Open Scope N_scope.
 
@@ -103,3 +112,27 @@ Theorem C17_trace : forall fuel cc sc tp tr delay pps args out,
        f k1 <> f k2).
 Proof. exact SimActionTrace.action_completion_trace. Qed.
 Print Assumptions C17_trace.
+
+Theorem C17_fires_when_due : forall fuel cc sc tp tr delay pps args out,
+  SimHistory.full_args args ->
+  sim_advanced fuel cc sc tp (parse_trace tr delay) delay pps args = Ok out ->
+  exists H : list SimHistory.hrec, out = map SimHistory.h_ev H /\
+  exists f : nat -> nat,
+    (forall k rk m, nth_error H k = Some rk ->
+       (se_ev (SimHistory.h_ev rk) = TEPaddingSent m \/ se_ev (SimHistory.h_ev rk) = TEBlockingBegin m) ->
+       SimActionTrace.caused_by H k rk m (f k)) /\
+    forall j rj a m k' rk',
+      nth_error H j = Some rj -> In a (SimHistory.h_acts rj) -> taction_machine a = m ->
+      (exists tmo by_ rp, a = TSendPadding m tmo by_ rp) \/ (exists tmo dur by_ rp, a = TBlockOutgoing m tmo dur by_ rp) ->
+      let due := (se_time (SimHistory.h_ev rj) + Z.of_N (SimActionTrace.timeout_of a))%Z in
+      (j < k')%nat -> nth_error H k' = Some rk' -> (due < se_time (SimHistory.h_ev rk'))%Z ->
+      (exists k rk, (j < k < k')%nat /\ nth_error H k = Some rk /\
+                    se_client (SimHistory.h_ev rk) = se_client (SimHistory.h_ev rj) /\
+                    SimActionTrace.completes a (SimHistory.h_ev rk) /\
+                    se_time (SimHistory.h_ev rk) = due /\ f k = j) \/
+      (exists j' rj' a', (j < j' < k')%nat /\ nth_error H j' = Some rj' /\
+                    se_client (SimHistory.h_ev rj') = se_client (SimHistory.h_ev rj) /\
+                    In a' (SimHistory.h_acts rj') /\
+                    SimActionTrace.is_sched_for m a' = true /\ (se_time (SimHistory.h_ev rj') <= due)%Z).
+Proof. exact SimActionLive.action_fires_when_due. Qed.
+Print Assumptions C17_fires_when_due.
